@@ -19,11 +19,33 @@ import (
 	"verif/h/corpus"
 	"verif/h/gen"
 	"verif/h/hx"
+	"verif/h/kf"
 	"verif/h/llvmx"
 	"verif/h/lx"
 )
 
-func TestMain(m *testing.M) { hx.Main(m, "C14", nil) }
+// kfMDPersist: known finding KF-C14-metadata-ids-persist is listed and still reproduces; the step that
+// exposes it (a metadata definition inserted in front of already printed ones) is then not generated.
+var kfMDPersist bool
+
+func TestMain(m *testing.M) {
+	hx.Main(m, "C14", func() {
+		kfMDPersist = kf.Activate("KF-C14-metadata-ids-persist", func(in string) bool {
+			var steps []Step
+			if json.Unmarshal([]byte(in), &steps) != nil {
+				return false
+			}
+			A, _, pA := replay(steps, true)
+			B, _, pB := replay(steps, false)
+			if pA != nil || pB != nil {
+				return false
+			}
+			sA, p1 := lx.Print(A.m)
+			sB, p2 := lx.Print(B.m)
+			return p1 == nil && p2 == nil && sA != sB
+		})
+	})
+}
 
 // Step is one step of a history; integer fields are interpreted modulo what exists when the step runs.
 type Step struct {
@@ -372,9 +394,16 @@ func (w *world) apply(s Step, observe bool) (printed string, isPrint bool) {
 				m.Funcs[i-len(m.Globals)].SetName(name)
 			}
 		}
-	case "addMetadata":
-		// an unnumbered metadata definition (ID -1): printing assigns IDs
-		// (kept simple: a named metadata node referring to a fresh tuple is not needed for numbering shifts)
+	case "addMetadata", "insertMetadata":
+		// an unnumbered metadata definition (ID -1): printing assigns IDs. addMetadata appends it,
+		// insertMetadata puts it in front of the existing definitions.
+		w.nameN++
+		t := &metadata.Tuple{MetadataID: -1, Fields: []metadata.Field{&metadata.String{Value: fmt.Sprintf("md%d", w.nameN)}}}
+		if s.Op == "insertMetadata" {
+			m.MetadataDefs = append([]metadata.Definition{t}, m.MetadataDefs...)
+		} else {
+			m.MetadataDefs = append(m.MetadataDefs, t)
+		}
 	}
 	if !observe {
 		return "", false
@@ -494,6 +523,13 @@ func genHistory(rt *rapid.T) []Step {
 			op = rapid.SampledFrom(observeOps).Draw(rt, "obs")
 		} else {
 			op = rapid.SampledFrom(editOps).Draw(rt, "edit")
+			if op == "addMetadata" && rapid.IntRange(0, 1).Draw(rt, "mdfront") == 0 {
+				if kfMDPersist {
+					kf.Hit("KF-C14-metadata-ids-persist")
+				} else {
+					op = "insertMetadata"
+				}
+			}
 		}
 		name := ""
 		if rapid.IntRange(0, 2).Draw(rt, "named") == 0 {
